@@ -254,8 +254,8 @@ func c02PathClass(p string) string {
 
 func init() {
 	checks["c02"] = checkDef{"C02",
-		"(1) shape probe: method × path shape (/, /b, /b/, /b/k, /b/k/, /b/k/x, /b//k, new bucket, directory object, admin routes on both ports) × subresource × credential defect (13 header-auth defects, 3 presign defects) × body kind (none, small valid document for that subresource, aws-chunked/unsigned); quick = one to three random defects per endpoint shape, thorough = every defect (exhaustive). Oracle: 4xx ∧ byte-exact snapshot of storage/versioning/IAM dirs unchanged ∧ no stored data in the answer. (2) random programs with 25% unauthenticated requests compared with Model.Gw.step. Distinct by request; all are non-trivial (each carries exactly one defect).",
-		[]checkFn{c02Shapes, func(a lib.Args, res *lib.Result) error {
+		"(1) shape probe: method × path shape (/, /b, /b/, /b/k, /b/k/, /b/k/x, /b//k, new bucket, directory object, admin routes on both ports) × subresource × credential defect (13 header-auth defects, 3 presign defects) × body kind (none, small valid document for that subresource, aws-chunked/unsigned); quick = one to three random defects per endpoint shape, thorough = every defect (exhaustive). Oracle: 4xx ∧ byte-exact snapshot of storage/versioning/IAM dirs unchanged ∧ no stored data in the answer. (1b) rotation: a request signed with the secret an account had before an acknowledged update-user (self-rotation by an admin account; rotation through another gateway process on the same IAM directory), header and presigned. (2) random programs with 25% unauthenticated requests compared with Model.Gw.step. Distinct by request; all are non-trivial (each carries exactly one defect).",
+		[]checkFn{c02Shapes, c02Rotation, func(a lib.Args, res *lib.Result) error {
 			return runPrograms(a, res, progOpts{name: "anon-mix", prop: "C02", programs: tierN(a, 200, 3000), maxOps: 40, seedOff: 22,
 				tune: func(g *prog.Gen) { g.Anon = 25 },
 				classify: func(s *prog.Step, class string) (string, string) {
